@@ -48,7 +48,7 @@ def _join(self, timeout=None):
             progressed = progressed or r != "B"
         coop.CURRENT[0] = me
         if steps > 4000 or not progressed:
-            raise Hang("join() never returns: " + self.name)
+            raise Hang(self.inv.invocation_id)
 FakeThread.join = _join
 
 def queue_list(app):
@@ -62,11 +62,13 @@ def queue_list(app):
         app.broker.route_invocation(x)
     return out
 
-def stop_sim(workload, slots, rounds, quantum):
+KNOWN_HANG = "C11:stop-joins-a-task-waiting-for-a-queued-child"
+
+def stop_sim(workload, slots, rounds, quantum, tolerate=()):
     """workload 0: two independent tasks; 1: a retrying task + an independent one; 2: a task waiting for a sub-task (+ one independent)"""
     global LAST_DETAIL
     reset_uuid()
-    ACTORS.clear(); ATTEMPTS.clear()
+    ACTORS.clear(); ATTEMPTS.clear(); AWAITED.clear()
     coop.CURRENT[0] = None
     app = mk_app("mem", app_id="c11sim", runner_cls="ThreadRunner", max_threads=slots, min_threads=1, cached_status_time=0.0)
     tasks = {"leaf": app.task(leaf), "mid": app.task(mid), "root": app.task(root), "flaky": app.task(max_retries=2)(flaky)}
@@ -86,7 +88,7 @@ def stop_sim(workload, slots, rounds, quantum):
     else:
         invs = [tasks["root"](0), tasks["leaf"](2)]
     o = app.orchestrator
-    outcome = {"stop": "not-requested"}
+    outcome = {"stop": "not-requested", "alive_at_stop": set(), "hung_on": None}
     def loop_gen():
         pctx.set_current_runner(app.app_id, runner)
         n = 0
@@ -94,11 +96,12 @@ def stop_sim(workload, slots, rounds, quantum):
             n += 1
             yield from runner.runner_loop_iteration__gen()
             yield ("L", -1)
+        outcome["alive_at_stop"] = {k for k, ti in runner.threads.items() if ti.thread.is_alive()}
         try:
             yield from runner.on_stop__gen()  # the real stop (twin): kill + reroute + join
             outcome["stop"] = "completed"
         except Hang as e:
-            outcome["stop"] = "hangs"
+            outcome["stop"] = "hangs"; outcome["hung_on"] = str(e)
     def stopper_gen():
         i = 0
         while coop.sym_lt(i, rounds):
@@ -117,7 +120,13 @@ def stop_sim(workload, slots, rounds, quantum):
     if errs:
         why = "C11:sim:loop-or-stop-raised"
     elif outcome["stop"] == "hangs":
-        why = "C11:stop-joins-a-task-waiting-for-a-queued-child"
+        # the listed known finding: the awaited child was still QUEUED (no thread) when the stop began. A child that had a live
+        # thread when the stop began would have finished by itself and released its parent: that hang is a different defect.
+        pending_children = [c for c in AWAITED if not o.get_invocation_status(c).is_final()]
+        if any(c in outcome["alive_at_stop"] for c in pending_children):
+            why = "C11:stop-kills-a-live-child-before-joining-its-waiting-parent"
+        else:
+            why = KNOWN_HANG
     elif outcome["stop"] != "completed":
         why = "C11:sim:stop-did-not-complete"
     else:
@@ -132,19 +141,31 @@ def stop_sim(workload, slots, rounds, quantum):
                     why = f"C11:{rec.status.value}-but-not-queued"; break
                 continue
             why = f"C11:left-in-{rec.status.value}"; break
-    LAST_DETAIL = {"workload": workload, "slots": slots, "stop": outcome["stop"], "deadlock": res["deadlock"],
+    LAST_DETAIL = {"workload": workload, "slots": slots, "stop": outcome["stop"], "deadlock": res["deadlock"], "hung_on": (outcome["hung_on"] or "")[-4:],
+                   "alive_at_stop": sorted(x[-4:] for x in outcome["alive_at_stop"]), "awaited": [x[-4:] for x in AWAITED],
                    "final": {i[-4:]: (o.get_invocation_status_record(i).status.value, o.get_invocation_status_record(i).runner_id) for i in ids},
                    "queue": [x[-4:] for x in q], "errors": errs[:2], "why": why}
-    return why is None
+    return why is None or why in tolerate
 '''
 
 F = r'''
-def stop___W_____SLOTS__(rounds: int, quantum: int) -> bool:
+def stop___W_____SLOTS__(rounds: int, quantum: int, work: int) -> bool:
+    """
+    pre: 0 <= rounds <= RMAX and 1 <= quantum <= 3 and 0 <= work <= 2
+    post: _
+    """
+    quantum = pick(quantum, 1, 3)
+    LEAF_WORK[0] = [0, 40, 400][pick(work, 0, 2)]
+    with NoTracing():
+        return stop_sim(__W__, __SLOTS__, rounds, quantum, __TOL__)
+
+def finding_stop___W_____SLOTS__(rounds: int, quantum: int) -> bool:
     """
     pre: 0 <= rounds <= RMAX and 1 <= quantum <= 3
     post: _
     """
     quantum = pick(quantum, 1, 3)
+    LEAF_WORK[0] = 0
     with NoTracing():
         return stop_sim(__W__, __SLOTS__, rounds, quantum)
 '''
@@ -158,17 +179,22 @@ def _key_from_replay(args, kwargs, replay_out):
 def run(ctx: Ctx) -> None:
     thorough = ctx.tier == "thorough"
     rmax = 400 if thorough else 150
+    known = "C11:stop-joins-a-task-waiting-for-a-queued-child"
+    tol = repr((known,)) if ctx.known_status(known) == "known" else "()"
     src = C09_sim.SRC + EXTRA_SRC
     conds = []
-    for w in (0, 1):
+    for w in (0, 1, 2):
         for slots in (1, 2):
-            src += F.replace("__W__", str(w)).replace("__SLOTS__", str(slots)).replace("RMAX", str(rmax))
+            f = F.replace("__W__", str(w)).replace("__SLOTS__", str(slots)).replace("RMAX", str(rmax)).replace("__TOL__", tol if w == 2 else "()")
+            if w != 2:
+                f = f.split("def finding_stop_")[0]
+            src += f
             conds.append(Cond(f"stop_{w}_{slots}", "confirm", 3000, keyfn=_key_from_replay))
-    for slots in (1, 2):
-        src += F.replace("__W__", "2").replace("__SLOTS__", str(slots)).replace("RMAX", str(rmax))
-        conds.append(Cond(f"stop_2_{slots}", "finding", 3000, key="C11:stop-joins-a-task-waiting-for-a-queued-child",
-                          what="whole-run simulation: a stop request while a task waits for a sub-task that is still queued: on_stop joins the waiting task's thread and never returns"))
+            if w == 2:
+                conds.append(Cond(f"finding_stop_{w}_{slots}", "finding", 3000, key=known, keyfn=_key_from_replay,
+                                  what="whole-run simulation: a stop request while a task waits for a sub-task that is still queued: on_stop joins the waiting task's thread and never returns"))
     ctx.ch_batch("c11sim", src, conds)
     ctx.functions_encoded += ["BaseRunner.stop_runner_loop/on_stop + ThreadRunner._on_stop inside the whole-run simulation (real loop, run, result twins)"]
-    ctx.bounds["simulated run"] = (f"workloads: two independent tasks / a retrying task + an independent one (verify), a task waiting for a sub-task (known finding); 1-2 slots; "
-                                   f"stop request after 0..{rmax} fair round-robin rounds (quantum 1..3); in-memory stack")
+    ctx.bounds["simulated run"] = (f"workloads: two independent tasks / a retrying task + an independent one / a task waiting for a sub-task (+ an independent one); 1-2 slots; "
+                                   f"stop request after 0..{rmax} fair round-robin rounds (quantum 1..3); leaf bodies take 0 / 40 / 400 cooperative steps; in-memory stack. In the waiting workload the listed known finding "
+                                   f"(awaited child still queued when the stop begins) is tolerated and every other outcome must be clean; a separate condition reproduces the known finding")
